@@ -20,7 +20,15 @@ link is asked is recorded as a `Call` trace; the correspondence stream compares 
 with what a scripted `Link`/`AsyncLink` saw from the real controller.
 
 An *operation* is abstracted to the number of frames it still needs (`ops : List Nat`, one entry per
-device): that is all `send_impl` looks at (`pack` consumes one, `is_done` asks for zero).
+**enabled** device, as built by `OperationHandler::generate` from `geometry.devices()`): that is all
+`send_impl` looks at (`pack` consumes one, `is_done` asks for zero).
+
+`Device::enable` is part of the state (`St.enable`, one flag per device, in device order): `pack`
+skips disabled devices (their `TxMessage` — and so their message id — stays as it is),
+`wait_msg_processed` waits for enabled devices only (`!dev.enable || processed`) and scans only
+their acknowledgements for firmware errors, `firmware_version` lists enabled devices only,
+`close_impl` enables every device before it sends.  The link still sees and fills one slot per
+device, enabled or not.
 No imports: this file is linked into `autd3model`.
 -/
 namespace Autd3.Ctl
@@ -80,10 +88,12 @@ structure Tx where
   tag : Nat
   deriving DecidableEq, Repr, Inhabited
 
-/-- `Controller { tx_buf, rx_buf }` — both persist across sends -/
+/-- `Controller { geometry, tx_buf, rx_buf }` — all persist across sends; of the geometry only
+`Device::enable` (per device, in order) matters here -/
 structure St where
   tx : List Tx
   rx : List Rx
+  enable : List Bool
   deriving DecidableEq, Repr, Inhabited
 
 /-- everything the link is asked, with its answer -/
@@ -108,7 +118,7 @@ structure Poll where
   recv : Option (List Rx)
   /-- `start.elapsed() > timeout`, evaluated after this poll -/
   late : Bool
-  deriving Repr, Inhabited
+  deriving DecidableEq, Repr, Inhabited
 
 /-- one turn of the `send_impl` loop -/
 structure FrameScript where
@@ -117,7 +127,7 @@ structure FrameScript where
   /-- `link.send(tx)` answers `Ok` -/
   sendOk : Bool
   polls : List Poll
-  deriving Repr, Inhabited
+  deriving DecidableEq, Repr, Inhabited
 
 /-- the link's behaviour during one `send_impl`; a frame's script may depend on the frame -/
 structure SendScript where
@@ -136,14 +146,30 @@ def checkIfMsgIsProcessed : List Tx → List Rx → List Bool
   | t :: ts, r :: rs => (t.msgId == r.ack) :: checkIfMsgIsProcessed ts rs
   | _, _ => []
 
-/-- `rx.iter().try_fold((), |_, r| check_firmware_err(r))`: the first device (in order) whose
-acknowledgement has the error bit -/
-def firstFirmwareErr : List Rx → Option Err
-  | [] => none
-  | r :: rs =>
-    match checkFirmwareErr r with
-    | .error e => some e
-    | .ok () => firstFirmwareErr rs
+/-- `geometry.iter().zip(rx.iter()).filter(|(dev, _)| dev.enable).try_fold((), |_, (_, r)| check_firmware_err(r))`:
+the first **enabled** device (in order) whose acknowledgement has the error bit -/
+def firstFirmwareErr : List Bool → List Rx → Option Err
+  | e :: es, r :: rs =>
+    if e then
+      match checkFirmwareErr r with
+      | .error x => some x
+      | .ok () => firstFirmwareErr es rs
+    else firstFirmwareErr es rs
+  | _, _ => none
+
+/-- `geometry.iter().zip(check_if_msg_is_processed(tx, rx)).all(|(dev, processed)| !dev.enable || processed)` -/
+def allProcessed (en : List Bool) (processed : List Bool) : Bool :=
+  (en.zip processed).all fun dp => !dp.1 || dp.2
+
+/-! ## `Geometry` -/
+
+/-- the entries of a per-device list that belong to enabled devices, in order
+(`geometry.iter().zip(xs).filter(|(dev, _)| dev.enable)`; with `xs` the devices themselves this is
+`Geometry::devices()`) -/
+def masked {α : Type} : List Bool → List α → List α
+  | true :: es, x :: xs => x :: masked es xs
+  | false :: es, _ :: xs => masked es xs
+  | _, _ => []
 
 /-! ## `OperationHandler` -/
 
@@ -153,14 +179,24 @@ def packOp (tag : Nat) (t : Tx) (rem : Nat) : Tx × Nat :=
   if rem = 0 then (t, 0)
   else ({ msgId := (t.msgId + 1) &&& MSG_ID_MAX, tag := tag }, rem - 1)
 
-/-- `OperationHandler::pack` (a `zip` of devices/frames with operations) -/
-def pack (tag : Nat) : List Tx → List Nat → List Tx × List Nat
-  | t :: ts, r :: rs =>
+/-- `OperationHandler::generate`: one operation per **enabled** device
+(`geometry.devices().map(|dev| Some(generator.generate(dev)))`); `perDev` is what the generator
+answers for each device index -/
+def generate (en : List Bool) (perDev : List Nat) : List Nat := masked en perDev
+
+/-- `OperationHandler::pack`:
+`geometry.iter().zip(tx.iter_mut()).filter(|(dev, _)| dev.enable).zip(operations.iter_mut())` —
+a disabled device's frame is skipped (and consumes no operation); the walk ends when the devices, the
+frames or the operations run out -/
+def pack (tag : Nat) : List Bool → List Tx → List Nat → List Tx × List Nat
+  | false :: es, t :: ts, ops =>
+    let q := pack tag es ts ops
+    (t :: q.1, q.2)
+  | true :: es, t :: ts, r :: rs =>
     let p := packOp tag t r
-    let q := pack tag ts rs
+    let q := pack tag es ts rs
     (p.1 :: q.1, p.2 :: q.2)
-  | ts, [] => (ts, [])
-  | [], rs => ([], rs)
+  | _, ts, ops => (ts, ops)
 
 /-- `OperationHandler::is_done` -/
 def isDone (ops : List Nat) : Bool := ops.all (· == 0)
@@ -175,13 +211,13 @@ def recvInto : List Rx → List Rx → List Rx
   | _ :: os, n :: ns => n :: recvInto os ns
 
 /-- the tail of `wait_msg_processed` after `break` -/
-def afterLoop (tz : Bool) (rx : List Rx) : Res :=
-  match firstFirmwareErr rx with
+def afterLoop (tz : Bool) (en : List Bool) (rx : List Rx) : Res :=
+  match firstFirmwareErr en rx with
   | some e => .err e
   | none => if tz then .ok else .err .confirmResponseFailed
 
-/-- `wait_msg_processed`; `tz` is `timeout == Duration::ZERO` -/
-def waitMsgProcessed (tz : Bool) (tx : List Tx) : List Rx → List Poll → Res × List Rx × List Call
+/-- `wait_msg_processed`; `tz` is `timeout == Duration::ZERO`, `en` the devices' `enable` flags -/
+def waitMsgProcessed (tz : Bool) (en : List Bool) (tx : List Tx) : List Rx → List Poll → Res × List Rx × List Call
   | rx, [] => (.stuck, rx, [])
   | rx, p :: ps =>
     if !p.isOpen then (.err .linkClosed, rx, [.isOpen false])
@@ -190,10 +226,10 @@ def waitMsgProcessed (tz : Bool) (tx : List Tx) : List Rx → List Poll → Res 
       | none => (.err (.link "receive"), rx, [.isOpen true, .recv none])
       | some new =>
         let rx' := recvInto rx new
-        if (checkIfMsgIsProcessed tx rx').all id then (.ok, rx', [.isOpen true, .recv (some rx')])
-        else if p.late then (afterLoop tz rx', rx', [.isOpen true, .recv (some rx')])
+        if allProcessed en (checkIfMsgIsProcessed tx rx') then (.ok, rx', [.isOpen true, .recv (some rx')])
+        else if p.late then (afterLoop tz en rx', rx', [.isOpen true, .recv (some rx')])
         else
-          let w := waitMsgProcessed tz tx rx' ps
+          let w := waitMsgProcessed tz en tx rx' ps
           (w.1, w.2.1, .isOpen true :: .recv (some rx') :: w.2.2)
 
 /-- `send_receive` -/
@@ -201,14 +237,14 @@ def sendReceive (tz : Bool) (st : St) (f : FrameScript) : Res × St × List Call
   if !f.isOpen then (.err .linkClosed, st, [.isOpen false])
   else if !f.sendOk then (.err (.link "send"), st, [.isOpen true, .send st.tx false])
   else
-    let w := waitMsgProcessed tz st.tx st.rx f.polls
+    let w := waitMsgProcessed tz st.enable st.tx st.rx f.polls
     (w.1, { st with rx := w.2.1 }, .isOpen true :: .send st.tx true :: w.2.2)
 
 /-- the loop of `send_impl`: pack → send_receive → is_done.  One frame script is consumed per turn. -/
 def sendLoop (tz : Bool) (tag : Nat) : St → List Nat → List (List Tx → FrameScript) → Res × St × List Call
   | st, _, [] => (.stuck, st, [])
   | st, ops, f :: fs =>
-    let p := pack tag st.tx ops
+    let p := pack tag st.enable st.tx ops
     let st1 : St := { st with tx := p.1 }
     let s := sendReceive tz st1 (f p.1)
     match s.1 with
@@ -226,8 +262,9 @@ def sendImpl (tz : Bool) (tag : Nat) (st : St) (ops : List Nat) (sc : SendScript
     let l := sendLoop tz tag st ops sc.frames
     (l.1, l.2.1, .update true :: l.2.2)
 
-/-- what `Sender::send` needs to know of a datagram: the frames each device's operation takes, the
-tag of its first slot, `option().timeout` in ms, and whether `operation_generator` fails -/
+/-- what `Sender::send` needs to know of a datagram: the frames the operation generated for device
+`i` would take (`frames[i]`; asked for enabled devices only), the tag of its first slot,
+`option().timeout` in ms, and whether `operation_generator` fails -/
 structure Datagram where
   frames : List Nat
   tag : Nat
@@ -235,11 +272,12 @@ structure Datagram where
   genFail : Bool := false
   deriving Repr, Inhabited
 
-/-- `Sender::send`: `timeout = option.timeout.unwrap_or(datagram.option().timeout)` -/
+/-- `Sender::send`: `timeout = option.timeout.unwrap_or(datagram.option().timeout)`; the operations
+are generated for the enabled devices -/
 def send (optTimeoutMs : Option Nat) (d : Datagram) (st : St) (sc : SendScript) : Res × St × List Call :=
   let timeout := optTimeoutMs.getD d.timeoutMs
   if d.genFail then (.err .generator, st, [])
-  else sendImpl (timeout == 0) d.tag st d.frames sc
+  else sendImpl (timeout == 0) d.tag st (generate st.enable d.frames) sc
 
 /-! ## `Controller` -/
 
@@ -266,11 +304,13 @@ def firstFailure : List Res → Res
   | .ok :: rs => firstFailure rs
   | r :: _ => r
 
-/-- `close_impl` (default `SenderOption`: the datagrams' own timeouts).  All three sends and
-`link.close()` are evaluated before the results are folded. -/
-def closeImpl (st : St) (c : CloseScript) : Res × St × List Call :=
-  if !c.isOpen then (.ok, st, [.isOpen false])
+/-- `close_impl` (default `SenderOption`: the datagrams' own timeouts).  If the link is open every
+device is enabled first (`geometry.iter_mut().for_each(|dev| dev.enable = true)`).  All three sends
+and `link.close()` are evaluated before the results are folded. -/
+def closeImpl (st0 : St) (c : CloseScript) : Res × St × List Call :=
+  if !c.isOpen then (.ok, st0, [.isOpen false])
   else
+    let st : St := { st0 with enable := st0.enable.map fun _ => true }
     let n := st.tx.length
     let a := send none (oneFrame n TAG_SILENCER) st c.silencer
     let b := send none (oneFrame n TAG_MODULATION) a.2.1 c.staticNull
@@ -303,13 +343,14 @@ structure OpenScript where
   drop : DropScript
   deriving Inhabited
 
-/-- `Controller::open_with_option` + `open_impl`: zeroed buffers, a throw-away `ForceFan` whose result
-is ignored, then `(Clear, Synchronize)`.  On failure the controller is dropped. -/
+/-- `Controller::open_with_option` + `open_impl`: a fresh geometry (every device enabled), zeroed
+buffers, a throw-away `ForceFan` whose result is ignored, then `(Clear, Synchronize)`.  On failure the
+controller is dropped. -/
 def openWithOption (isAsync : Bool) (n : Nat) (optTimeoutMs : Option Nat) (o : OpenScript) :
     Res × Option St × List Call :=
   if !o.openOk then (.err (.link "open"), none, [.open false])
   else
-    let st0 : St := { tx := List.replicate n ⟨0, 0⟩, rx := List.replicate n ⟨0, 0⟩ }
+    let st0 : St := { tx := List.replicate n ⟨0, 0⟩, rx := List.replicate n ⟨0, 0⟩, enable := List.replicate n true }
     let a := send optTimeoutMs (oneFrame n TAG_FORCE_FAN) st0 o.forceFan
     let b := send optTimeoutMs (oneFrame n TAG_CLEAR) a.2.1 o.clearSync
     match b.1 with
@@ -325,7 +366,8 @@ def close (isAsync : Bool) (st : St) (c : CloseScript) (drop : DropScript) : Res
   (r.1, r.2.2 ++ (if isAsync then dropAsync drop else dropSync r.2.1 drop))
 
 /-- `fetch_firminfo`: on failure the error is replaced by the per-device processed flags computed
-from the buffers as they are -/
+from the buffers as they are — for **every** device, enabled or not (`check_if_msg_is_processed`
+is not filtered); on success the data bytes of every device -/
 def fetchFirminfo (st : St) (sc : SendScript) : Except Res (List Nat) × St × List Call :=
   let s := send none (oneFrame st.tx.length TAG_FIRM_INFO) st sc
   match s.1 with
@@ -334,8 +376,9 @@ def fetchFirminfo (st : St) (sc : SendScript) : Except Res (List Nat) × St × L
   | .err _ => (.error (.err (.readFirmwareVersionFailed (checkIfMsgIsProcessed s.2.1.tx s.2.1.rx))), s.2.1, s.2.2)
 
 /-- `firmware_version`: six `fetch_firminfo`s, stopping at the first failure; the answer is, per
-device, `[cpu_major, cpu_minor, fpga_major, fpga_minor, fpga_functions]` -/
-def firmwareVersion (st : St) : List SendScript → Except Res (List (List Nat)) × St × List Call
+**enabled** device (`geometry.devices()`), `(idx, [cpu_major, cpu_minor, fpga_major, fpga_minor,
+fpga_functions])` -/
+def firmwareVersion (st : St) : List SendScript → Except Res (List (Nat × List Nat)) × St × List Call
   | [s1, s2, s3, s4, s5, s6] =>
     let a := fetchFirminfo st s1
     match a.1 with
@@ -362,12 +405,13 @@ def firmwareVersion (st : St) : List SendScript → Except Res (List (List Nat))
     | .error r => (.error r, f.2.1, a.2.2 ++ b.2.2 ++ c.2.2 ++ d.2.2 ++ e.2.2 ++ f.2.2)
     | .ok _ =>
       let get (l : List Nat) (i : Nat) : Nat := (l[i]?).getD 0
-      (.ok ((List.range st.tx.length).map fun i =>
-          [get cpuMajor i, get cpuMinor i, get fpgaMajor i, get fpgaMinor i, get fpgaFunctions i]),
+      (.ok ((masked st.enable (List.range st.enable.length)).map fun i =>
+          (i, [get cpuMajor i, get cpuMinor i, get fpgaMajor i, get fpgaMinor i, get fpgaFunctions i])),
         f.2.1, a.2.2 ++ b.2.2 ++ c.2.2 ++ d.2.2 ++ e.2.2 ++ f.2.2)
   | _ => (.error .stuck, st, [])
 
-/-- `fpga_state`: `FPGAState::from_rx` = `Some(data)` iff bit 7 of `data` is set -/
+/-- `fpga_state`: `FPGAState::from_rx` = `Some(data)` iff bit 7 of `data` is set; every device,
+enabled or not -/
 def fpgaState (st : St) (isOpen : Bool) (recv : Option (List Rx)) :
     Except Err (List (Option Nat)) × St × List Call :=
   if !isOpen then (.error .linkClosed, st, [.isOpen false])
@@ -418,7 +462,7 @@ structure DevRun where
 
 /-- `Sender::send` of a one-frame datagram through a delivering link -/
 def devSend (optTimeoutMs : Option Nat) (d : Datagram) (st : St) (ds : List Dev) : DevRun :=
-  let tx' := (pack d.tag st.tx d.frames).1
+  let tx' := (pack d.tag st.enable st.tx (generate st.enable d.frames)).1
   let r := send optTimeoutMs d st { updateOk := true, frames := [devFrame ds] }
   let after := deliver ds tx'
   { res := r.1, st := r.2.1, ds := after.map (·.1), processed := after.map (·.2), trace := r.2.2 }
@@ -426,7 +470,7 @@ def devSend (optTimeoutMs : Option Nat) (d : Datagram) (st : St) (ds : List Dev)
 /-- `open_impl` in front of devices left in state `ds` by a previous session -/
 def openOnDevices (optTimeoutMs : Option Nat) (ds : List Dev) : DevRun × DevRun :=
   let n := ds.length
-  let st0 : St := { tx := List.replicate n ⟨0, 0⟩, rx := List.replicate n ⟨0, 0⟩ }
+  let st0 : St := { tx := List.replicate n ⟨0, 0⟩, rx := List.replicate n ⟨0, 0⟩, enable := List.replicate n true }
   let a := devSend optTimeoutMs (oneFrame n TAG_FORCE_FAN) st0 ds
   let b := devSend optTimeoutMs (oneFrame n TAG_CLEAR) a.st a.ds
   (a, b)
